@@ -37,6 +37,8 @@ type Case struct {
 	// Early: queries issued while the network is still being built (after the first After links); their results are
 	// not judged, the final query on the complete network is
 	Early []EarlyQ `json:"early,omitempty"`
+	// Bisector: the two query points are 2e-10 relative apart, on either side of the bisector of a link
+	Bisector bool `json:"bisector,omitempty"`
 }
 
 type EarlyQ struct {
@@ -117,6 +119,18 @@ func gen(t *rapid.T) Case {
 		return vkit.MkP(sx*rapid.Float64Range(5, float64(15+2*w)).Draw(t, lbl+"x"), sy*rapid.Float64Range(5, float64(15+2*w)).Draw(t, lbl+"y"))
 	}
 	c.From, c.To = q("from"), q("to")
+	if len(c.Links) >= 1 && rapid.IntRange(0, 7).Draw(t, "bisector") == 3 {
+		// two query points a hair apart (1e-10 relative, i.e. "the same point" to the library's point comparison) on
+		// either side of the perpendicular bisector of a link: their nearest nodes are the two ends of the link
+		l := c.Links[rapid.IntRange(0, len(c.Links)-1).Draw(t, "bislink")]
+		a, b := c.Nodes[l.A], c.Nodes[l.B]
+		mx, my := (float64(a[0])+float64(b[0]))/2, (float64(a[1])+float64(b[1]))/2
+		dx, dy := float64(b[0])-float64(a[0]), float64(b[1])-float64(a[1])
+		n := math.Hypot(dx, dy)
+		e := 1e-10 * math.Max(math.Abs(mx), math.Abs(my))
+		c.From, c.To = vkit.MkP(mx-e*dx/n, my-e*dy/n), vkit.MkP(mx+e*dx/n, my+e*dy/n)
+		c.Bisector = true
+	}
 	if len(c.Links) >= 2 && rapid.IntRange(0, 2).Draw(t, "early") > 0 {
 		ne := rapid.IntRange(1, 3).Draw(t, "nearly")
 		for i := 0; i < ne; i++ {
@@ -239,9 +253,23 @@ func run(c Case) (v vkit.Verdict) {
 		inNet[l.A], inNet[l.B] = true, true
 	}
 	// a node sits at the first link end the library saw, up to 3 jitter steps from the nominal position per coordinate
-	posTol := 1e-9
+	posTol := 1e-12
+	jstep := 0.0 // the largest displacement of a link end from its node, relative
+	for _, l := range c.Links {
+		for _, j := range [][2]int{l.JitA, l.JitB} {
+			jstep = math.Max(jstep, math.Max(math.Abs(float64(j[0])), math.Abs(float64(j[1]))))
+		}
+	}
+	unit := c.JitUnit
+	if unit == 0 {
+		unit = 1e-13
+	}
 	for _, q := range c.Nodes {
-		posTol = math.Max(posTol, 4e-9*math.Max(math.Abs(float64(q[0])), math.Abs(float64(q[1]))))
+		m := math.Max(math.Abs(float64(q[0])), math.Abs(float64(q[1])))
+		posTol = math.Max(posTol, (1e-13+1.5*jstep*unit)*m)
+	}
+	if c.Bisector {
+		v.Class("query_points_a_hair_apart_across_a_bisector")
 	}
 	nearest := func(p vkit.P2) ([]int, float64) {
 		best := math.Inf(1)
